@@ -692,9 +692,13 @@ class Exec:
 
     ENUM_STD = {'Option': ['None', 'Some'], 'Result': ['Ok', 'Err'], 'ControlFlow': ['Continue', 'Break']}
 
+    _adt_cache = {}
+
     def mk_adt(self, head, vals):
-        h = strip_generics(head)
-        parts = h.split('::')
+        parts = self._adt_cache.get(head)
+        if parts is None:
+            parts = self._adt_cache[head] = strip_generics(head).split('::')
+        h = '::'.join(parts)
         if len(parts) >= 2:
             en, var = parts[-2], parts[-1]
             if en in self.ENUM_STD and var in self.ENUM_STD[en]:
